@@ -60,6 +60,9 @@ type Policy struct {
 
 // Sim is one simulated run.
 type Sim struct {
+	// Coalesce (race flavour): events due within this much simulated time of
+	// the one being fired are fired with it
+	Coalesce time.Duration
 	stallDen int
 	stallMax time.Duration
 	T       *Tape
@@ -406,6 +409,29 @@ func (s *Sim) drive() {
 			s.logEvent("event", e.Name)
 			zsimrt.Tick()
 			e.Run()
+			// Race flavour: events that are due within the run's coalescing
+			// window are fired back to back, without waiting for the
+			// goroutines woken by the earlier ones to come to rest: their
+			// bursts of activity then overlap in real time, as they do on a
+			// real network (otherwise two goroutines woken by different
+			// events would never run at the same time, and every access
+			// would be ordered by whatever lock each burst takes first)
+			for s.Free && s.Coalesce > 0 {
+				s.qmu.Lock()
+				var nx *Event
+				if len(s.q) > 0 && s.q.peek().At <= now+s.Coalesce {
+					nx = heap.Pop(&s.q).(*Event)
+					nx.idx = -1
+				}
+				s.qmu.Unlock()
+				if nx == nil {
+					break
+				}
+				s.Step++
+				s.logEvent("event", nx.Name)
+				nx.Run()
+				s.Count("events-coalesced")
+			}
 		}
 	}
 }
